@@ -61,6 +61,8 @@ def misc_row(job):
         "concat": lambda: ndx.concat(xs, axis=0),
         "stack": lambda: ndx.stack(xs, axis=0),
         "clip": lambda: ndx.clip(xs[0], min=xs[1], max=xs[1]),
+        "clip-pyscalar": lambda: ndx.clip(xs[0], min=1.0 if "float" in ds[0] else 1, max=2.0 if "float" in ds[0] else 2),
+        "clip-pyscalar-min": lambda: ndx.clip(xs[0], min=1.0 if "float" in ds[0] else 1),
         "matmul": lambda: ndx.matmul(xs[0], ndx.permute_dims(xs[1], (1, 0))),
         "sort": lambda: ndx.sort(xs[0], axis=0),
         "argsort": lambda: ndx.argsort(xs[0], axis=0),
@@ -109,6 +111,10 @@ def misc_law(fn, ds, rt):
     if fn == "clip":
         # the standard fixes the result dtype only for bounds of x's own dtype
         return ("must", a) if (numeric and all(d == a for d in ds)) else None
+    if fn in ("clip-pyscalar", "clip-pyscalar-min"):
+        # Python scalars adopt the array's dtype (floating arrays with float bounds; the integer case is left open:
+        # the library routes small integer dtypes through int64 for want of kernels)
+        return ("must", a) if (core_of(a) in ("float32", "float64")) else None
     if fn == "matmul":
         r = rt(ds)
         if not all(core_of(d) not in ("bool", "utf8") for d in ds):
@@ -330,8 +336,11 @@ end Gen.ResultType
                           {"condition": ck, "x": a, "y": b, "observed": o, "expected": want})
     mjobs = []
     for fn in ("concat", "stack", "clip", "matmul"):
-        ps = pairs if not quick else ctx.rng.sample(pairs, 150)
-        mjobs += [(fn, p) for p in ps]
+        # quick: a sample of the pairs plus the whole diagonal (the only pairs the clip law speaks about)
+        ps = pairs if not quick else ctx.rng.sample(pairs, 150) + [(d, d) for d in names]
+        mjobs += [(fn, p) for p in dict.fromkeys(ps)]
+    for fn in ("clip-pyscalar", "clip-pyscalar-min"):
+        mjobs += [(fn, (d,)) for d in names]
     for fn in ("sort", "argsort", "argmax", "argmin", "max", "min", "take", "roll", "flip", "reshape",
                "expand_dims", "squeeze", "permute_dims", "broadcast_to", "zeros_like", "ones_like",
                "full_like", "isin", "getitem", "copy"):
